@@ -56,6 +56,11 @@ func Excuse(c Case, eng, ref Result, d *Diff, o *Outcome) string {
 			return "tie"
 		}
 	}
+	if d.Rule != "error-mismatch" && d.Rule != "type" && knifeEdge(c, expr) {
+		o.Inconclusive = "rounding at a comparison threshold: operands of a comparison agree within 1e-9"
+		o.Count("inconclusive_knife_edge", 1)
+		return "knife-edge"
+	}
 	return ""
 }
 
@@ -130,4 +135,72 @@ func StaticJoinAmbiguous(c Case, _ parser.Expr) bool {
 		}
 	}
 	return false
+}
+
+var exactFuncs = map[string]bool{"abs": true, "ceil": true, "floor": true, "min_over_time": true, "max_over_time": true,
+	"count_over_time": true, "last_over_time": true, "present_over_time": true, "changes": true, "resets": true, "vector": true, "scalar": true, "time": true}
+
+// inexact reports whether evaluating e involves floating-point rounding that may legitimately
+// differ between two correct implementations (summation order, Kahan vs plain, libm).
+func inexact(e parser.Expr) bool {
+	r := false
+	parser.Inspect(e, func(n parser.Node, _ []parser.Node) error {
+		switch x := n.(type) {
+		case *parser.Call:
+			if !exactFuncs[x.Func.Name] {
+				r = true
+			}
+		case *parser.AggregateExpr:
+			switch x.Op {
+			case parser.AVG, parser.STDDEV, parser.STDVAR, parser.QUANTILE:
+				r = true
+			}
+		case *parser.BinaryExpr:
+			switch x.Op {
+			case parser.DIV, parser.POW, parser.MOD, parser.ATAN2:
+				r = true
+			}
+		}
+		return nil
+	})
+	return r
+}
+
+// knifeEdge: some comparison in the query has, at some step, a left and a right operand value
+// that agree within the comparison tolerance while being different, or while being computed
+// inexactly. The outcome of such a comparison is decided by rounding.
+func knifeEdge(c Case, expr parser.Expr) bool {
+	hit := false
+	parser.Inspect(expr, func(n parser.Node, _ []parser.Node) error {
+		if hit {
+			return nil
+		}
+		b, ok := n.(*parser.BinaryExpr)
+		if !ok || !b.Op.IsComparisonOperator() {
+			return nil
+		}
+		l := RunReference(context.Background(), NewStore(c.Dataset, StoreOpts{}), c.Engine, b.LHS.String(), c.Window)
+		r := RunReference(context.Background(), NewStore(c.Dataset, StoreOpts{}), c.Engine, b.RHS.String(), c.Window)
+		if l.Res.Err != nil || r.Res.Err != nil {
+			return nil
+		}
+		soft := inexact(b.LHS) || inexact(b.RHS)
+		byT := map[int64][]float64{}
+		for _, s := range l.Res.Series {
+			for _, p := range s.Points {
+				byT[p.T] = append(byT[p.T], p.V)
+			}
+		}
+		for _, s := range r.Res.Series {
+			for _, p := range s.Points {
+				for _, v := range byT[p.T] {
+					if ValEq(v, p.V) && (v != p.V || soft) && v == v {
+						hit = true
+					}
+				}
+			}
+		}
+		return nil
+	})
+	return hit
 }
